@@ -6,6 +6,7 @@ import (
 	"path/filepath"
 	"strings"
 	"syscall"
+	"time"
 
 	"github.com/rminnich/go9p"
 
@@ -484,6 +485,25 @@ func c16Run(ctx *core.Ctx, tree int, dotu bool) core.Result {
 		}
 		complete := w != nil && w.Type == wire.Rwalk && exist == len(names) && len(w.Wqid) == len(names)
 		destRel := filepath.Join(startRel, strings.Join(names, "/"))
+		if complete && wi%3 == 0 {
+			// the object changes on the host between the walk and the stat (another process, another client): the stat
+			// reports the object as it is when it is asked for
+			if fi := lstat(destRel); fi != nil && (fi.Mode().IsRegular() || fi.IsDir()) {
+				full := filepath.Join(e.root, destRel)
+				_ = os.Chmod(full, fi.Mode().Perm()^0o040|fi.Mode()&(os.ModeSetuid|os.ModeSetgid|os.ModeSticky))
+				if fi.Mode().IsRegular() {
+					if fh, err := os.OpenFile(full, os.O_WRONLY|os.O_APPEND, 0); err == nil {
+						_, _ = fh.Write([]byte("+++"))
+						fh.Close()
+					}
+				}
+				old := fi.ModTime().Add(-time.Duration(1000+wi) * time.Second)
+				_ = os.Chtimes(full, old, old)
+				what += " (the object was changed on the host after the walk)"
+				sig += ";changed-after-walk"
+				res.Count("objects_changed_between_walk_and_stat", 1)
+			}
+		}
 		if complete {
 			statIs(newfid, destRel, what+": after the complete walk the new fid", "walk-newfid-wrong;"+sig)
 			if !inplace {
